@@ -80,7 +80,14 @@ func C07(r *vf.Run) {
 			cells := map[string]int64{}
 			var discarded int64
 			for pi := 0; pi < n/chunks && !r.TooMany(); pi++ {
-				buf := make([]byte, 512)
+				// the target is a window of a larger buffer (spare capacity behind its length); a third of the
+				// windows are small enough for the program to run out of room, by direct emission or by Append
+				window := 512
+				if g.Intn(3) == 0 {
+					window = 24 + g.Intn(200)
+				}
+				buf := make([]byte, window, 1024)
+				full := false
 				e := asm.NewEmitter(buf, g.Intn(4) == 0)
 				var base uint32
 				if g.Intn(5) != 0 {
@@ -123,7 +130,15 @@ func C07(r *vf.Run) {
 						})
 						cells["clone:dropped-sibling"]++
 					}
-					p.Append(e)
+					if pan := vf.Try(func() { p.Append(e) }); pan != nil {
+						// the fragment does not fit what is left of the original's window: it is refused, the
+						// program is what the original held before
+						full = true
+						hist = append(hist, "}Append refused")
+						cells["clone:append-refused-for-room"]++
+						e = p
+						return
+					}
 					e = p
 					hist = append(hist, "}Append")
 				}
@@ -136,7 +151,11 @@ func C07(r *vf.Run) {
 				}
 				trail := fmt.Sprintf("%x", init>>4)
 				ninstr := 1 + g.Intn(60)
-				for len(starts) < ninstr {
+				for len(starts) < ninstr && !full {
+					if e.Len()+64 > e.Cap() {
+						full = true // (no room for whatever comes next: the program ends here)
+						break
+					}
 					cur := byte(e.Flags())
 					switch k := g.Intn(12); {
 					case k == 0: // REP/SEP with any mask
@@ -262,6 +281,10 @@ func C07(r *vf.Run) {
 				}
 				for len(stack) > 0 {
 					pop()
+				}
+				// instruction starts reported by fragments that were refused are not part of the program
+				for len(starts) > 0 && starts[len(starts)-1] >= e.PC() {
+					starts = starts[:len(starts)-1]
 				}
 				// a program with labels is finalized before it runs (an out-of-range branch makes Finalize
 				// report an error; the branches are never taken here, so the program still runs)
